@@ -113,7 +113,9 @@ def gen(seed, tier, scale):
                 yield idx, label_case(s, "#", False, False, "exhaustive#")
                 idx += 1
     nrand = (1500 if tier == "quick" else 30000) * scale
-    pool = ["NP", "VP", "S", "EMPTY", "--", "-", "=", "'", "*", "*T*", "SBJ", "12", "3", "#", "HD", "-NONE-", "A", "x"]
+    pool = ["NP", "VP", "S", "EMPTY", "--", "-", "=", "'", "*", "*T*", "SBJ", "12", "3", "#", "HD", "-NONE-", "A", "x",
+            # near misses of the two default literals: other case, longer, shorter
+            "Empty", "empty", "eMPTY", "EMPTYX", "XEMPTY", "EMPT", "---", "- -", "np", "Np"]
     for _ in range(nrand):
         rng = case_rng(seed, ID, idx)
         s = "".join(rng.choice(pool) for _ in range(rng.randint(1, 6)))
